@@ -215,6 +215,10 @@ def cases_for(grid, thorough):
     for k in (1, 2, 3):
         for ts in itertools.combinations(cand, k):
             out.append([{"kind": "ats", "times": list(ts), "kwargs": kw}])
+            if k >= 2:  # the list of times is a set to the specification: its order must not matter
+                out.append([{"kind": "ats", "times": list(ts)[::-1], "kwargs": kw}])
+            if k == 3:
+                out.append([{"kind": "ats", "times": [ts[1], ts[2], ts[0]], "kwargs": kw}])
     for a in cand:
         for b in cand:
             out.append([{"kind": "range", "start": a, "end": b, "kwargs": kw}])
@@ -222,6 +226,8 @@ def cases_for(grid, thorough):
     small = rng if thorough else rng[::2]
     for r1, r2 in itertools.combinations_with_replacement(small, 2):
         out.append([{"kind": "ranges", "ranges": [r1, r2], "kwargs": kw}])
+        if r1 != r2:
+            out.append([{"kind": "ranges", "ranges": [r2, r1], "kwargs": kw}])
     out.append([{"kind": "ranges", "ranges": [rng[0]]}])
     periods = [s, 2 * s, 3 * s] + ([4 * s] if thorough else [])
     delays = [timedelta(0), s, 2 * s]
